@@ -485,6 +485,10 @@ func (e *applierEnv) tightApplier(size uint) *operationapplier.Applier {
 // ---------------------------------------------------------------------------------------------
 // replay of TLC edges
 
+type acceptingOriginValidator struct{}
+
+func (acceptingOriginValidator) Validate(interface{}) error { return nil }
+
 type edgeWin struct {
 	From  int64 `json:"from"`
 	Until int64 `json:"until"`
@@ -851,7 +855,13 @@ func applierReplay(args []string) {
 				// C09: the (from, until) pair handed to the time validator by the parser
 				if withParser && allOK(&ed.Op) && (ed.Op.Type == "update" || ed.Op.Type == "recover" || ed.Op.Type == "deactivate") {
 					rec := &recordingTimeValidator{}
-					parser := operationparser.New(env.proto, operationparser.WithAnchorTimeValidator(rec))
+					// (both optional validators configured, in either order of the options: each option sets its own validator)
+					popts := []operationparser.Option{operationparser.WithAnchorTimeValidator(rec), operationparser.WithAnchorOriginValidator(acceptingOriginValidator{})}
+					if (ed.Op.From+ed.Op.Until)%2 != 0 {
+						popts[0], popts[1] = popts[1], popts[0]
+					}
+
+					parser := operationparser.New(env.proto, popts...)
 					op := env.conc.Build(&ed.Op)
 					// (the same bytes are first read the way anchored operations are, on the same parser: what that call learnt
 					// does not spare the request the time validator)
